@@ -380,6 +380,61 @@ def one_stack(R, B, vm, items, W):
             R.counters['oracle_evaluations'] += 1
 
 
+def mutation_history(R, B, vm, rng):
+    """the caller keeps using its values between serialisations: append to / replace inside nested tuples, grow the stack list; every
+    serialisation must encode the values as they are at that moment (nothing remembered from an earlier serialise)"""
+    def rnd_tuple(d):
+        return ('tuple', [rng.randrange(100) if d >= 2 or rng.random() < 0.6 else rnd_tuple(d + 1) for _ in range(rng.randint(1, 4))])
+    items = [rnd_tuple(0), rng.randrange(1000), rnd_tuple(0)]
+    libvals = [to_lib_value(v, B, vm) for v in items]
+    steps = []
+    for step in range(rng.randint(2, 6)):
+        st, c = mon.call(vm.VmStack.serialize, libvals)
+        W = {'stack': describe(items), 'steps': list(steps)}
+        R.count('history_serialisations')
+        R.counters['oracle_evaluations'] += 1
+        if st == 'exc':
+            R.violation('history-serialize-raises', f'VmStack.serialize raised {c!r} after {steps}', W)
+            return
+        want = rc.RC(*enc_stack(items))
+        if c.hash != want.hash:
+            R.violation(f'history-stale-after-{steps[-1] if steps else "start"}', f'after {steps} the serialised stack is not the encoding of the current values', W)
+            return
+        st, got = mon.call(vm.VmStack.deserialize, c.begin_parse())
+        if st == 'exc' or len(got) != len(items) or any(same(a, b, B, vm) for a, b in zip(items, got)):
+            R.violation(f'history-roundtrip-after-{steps[-1] if steps else "start"}', f'after {steps} the parsed stack differs from the current values', W)
+            return
+        # pick a tuple somewhere inside (reference side and library side in parallel) and change it
+        ti = rng.choice([i for i, v in enumerate(items) if isinstance(v, tuple) and v[0] == 'tuple'])
+        ref_t, lib_t = items[ti], libvals[ti]
+        while True:
+            inner = [j for j, v in enumerate(ref_t[1]) if isinstance(v, tuple) and v[0] == 'tuple']
+            if not inner or rng.random() < 0.4:
+                break
+            j = rng.choice(inner)
+            ref_t, lib_t = ref_t[1][j], lib_t.list[j]
+        op = rng.choice(['append', 'replace-same-length', 'pop', 'append-to-stack-list'])
+        if op == 'append' and len(ref_t[1]) < 200:
+            v = rng.randrange(10 ** 6)
+            ref_t[1].append(v)
+            lib_t.append(v)
+        elif op == 'replace-same-length' and ref_t[1]:
+            j = rng.randrange(len(ref_t[1]))
+            v = rng.randrange(10 ** 6, 10 ** 7)
+            ref_t[1][j] = v
+            lib_t.list[j] = v
+        elif op == 'pop' and len(ref_t[1]) > 1:
+            ref_t[1].pop()
+            lib_t.pop()
+        else:
+            op = 'append-to-stack-list'
+            v = rng.randrange(50)
+            items.append(v)
+            libvals.append(v)
+        steps.append(op)
+        R.cover('history_ops', op)
+
+
 def has_min64(items):
     for v in items:
         if isinstance(v, int) and v == -2 ** 63:
@@ -457,6 +512,11 @@ def run(R):
                 [x.hash for x in got[0].refs[got[0].ref_offset:]] == [x.hash for x in base.refs[st_r:end_r]]
             R.check(ok, 'foreign-slice-window', f'VmCellSlice window bits {st_b}..{end_b} refs {st_r}..{end_r} parsed wrongly: {mon.srepr(got)}')
             R.count('foreign_slice_windows')
+    for i in range((60 if quick else 3000) // R.nshards + 1):
+        st, e = mon.call(mutation_history, R, B, vm, rng)
+        if st == 'exc':
+            R.violation(f'history-raises-{type(e).__name__}', f'using caller-held tuples between serialisations raised {e!r}', {})
+        R.case(mon.fp('hist', i, R.shard))
     n = (300 if quick else 30000) // R.nshards + 1
     for i in range(n):
         depth = rng.choice([1, 1, 2, 3, 5, 12])
@@ -465,6 +525,8 @@ def run(R):
         one_stack(R, B, vm, items, W)
         R.case(mon.fp(repr(W)), sample=W if i < 2 else None)
     R.floor('double_serialisations', 50)
+    R.floor('history_serialisations', 100)
+    R.floor('history_ops', 4, 'set')
     R.floor('kinds', 20, 'set')
 
 
